@@ -19,6 +19,27 @@ CLAIMED = {
              "operands are only observed to 1 us against exact rational arithmetic.",
         design="DESIGN §8 C01",
         technique="Lean 4 proof (loop invariants over Int) + model/implementation correspondence"),
+    "C02": dict(
+        text="Theorem C02_cmp over the Lean model of TimePoint._cmp (re-zone, 24:00 normalisation, list comparison by "
+             "the left operand's representation): the comparison is exactly the order of the instants for all valid "
+             "whole-second operands in any mix of representations/offsets/24:00; the six operators, trichotomy, "
+             "symmetry, transitivity, hash-key equality for equal instants and the sign of a-b follow as theorems. "
+             "Decimal (float) forms are observed only (cmpfrac stream, exact Fractions as reference).",
+        design="DESIGN §8 C02",
+        technique="Lean 4 proof (refinement of _cmp to the order of instants) + model/implementation correspondence"),
+    "C04": dict(
+        text="Theorems over the Lean model of TimePoint.__sub__(TimePoint) (swap test, re-zone, ordinal dates, closed-form "
+             "year range, borrow chain): the result is a d/h/m/s duration of length inst a - inst b with |h|<24, |m|,|s|<60 "
+             "and one sign; antisymmetry, b+(a-b)==a and (p+d)-p==d follow. Float operands observed only (F13 known finding).",
+        design="DESIGN §8 C04",
+        technique="Lean 4 proof + model/implementation correspondence"),
+    "C06": dict(
+        text="Theorems over the Lean model of to_time_zone/to_utc and TimeZone.__init__: re-zoning keeps the instant, carries "
+             "exactly the requested offset, keeps the representation and yields valid local fields, for every legal offset "
+             "-99:59..+99:59; equal/hash-equal/zero difference follow from C02/C04; the constructor accepts exactly the legal "
+             "offsets. Literal-zone dump formats are exercised end-to-end by the correspondence (dumpzone op), not yet modelled.",
+        design="DESIGN §8 C06",
+        technique="Lean 4 proof (corollary of C01) + model/implementation correspondence"),
     "C03": dict(
         text="Theorems over the Lean model: the six conversions are total on valid dates, produce valid dates and "
              "preserve the Spec day number (so all round trips are identities), for every year in Int and all four "
